@@ -187,6 +187,64 @@ class Core:
 
     def sample(self, rng, dims): return dict(rho=_rand_herm(rng, int(np.prod(dims))), dims=dims)
 
+    def semantic(self, rng, dims):
+        """end-to-end, no stubs: the verdicts / values of the real criteria against oracles written here (eigenvalues of every single-party partial transpose, the reduction operators,
+        singular values of every index rearrangement, Tr(rho SWAP)) on PPT and NPT density matrices; states within 1e-9 of a threshold are skipped"""
+        dims = tuple(int(x) for x in dims); D = int(np.prod(dims)); m = len(dims)
+        sq = np.random.default_rng(int(rng.integers(0, 2 ** 31)))
+
+        def states():
+            for t in range(30):
+                if t % 3 == 0:       # separable mixture
+                    r = 0
+                    for _ in range(int(sq.integers(1, 5))):
+                        v = [(lambda x: x / np.linalg.norm(x))(_rc(sq, d)) for d in dims]
+                        k = v[0]
+                        for w in v[1:]:
+                            k = np.kron(k, w)
+                        r = r + float(sq.uniform(0.1, 1)) * np.outer(k, k.conj())
+                    yield r / np.trace(r).real
+                elif t % 3 == 1:     # generic (mostly NPT for low rank)
+                    x = _rc(sq, D, int(sq.integers(1, D + 1))); r = x @ x.conj().T
+                    yield r / np.trace(r).real
+                else:                # near the maximally mixed state (PPT)
+                    x = _rc(sq, D, D); r = x @ x.conj().T; r = r / np.trace(r).real
+                    yield 0.9 * np.eye(D) / D + 0.1 * r
+        for rho in states():
+            T = rho.reshape(dims + dims)
+
+            def pt(i):
+                ax = list(range(2 * m)); ax[i], ax[m + i] = ax[m + i], ax[i]
+                return T.transpose(ax).reshape(D, D)
+            mins = [np.linalg.eigvalsh(pt(i)).min() for i in range(m)]
+            if all(abs(x + 1e-7) > 1e-9 for x in mins) and bool(ppt.is_ppt(rho, dims, eps=-1e-7)) != all(x > -1e-7 for x in mins):
+                return False, dict(function='is_ppt', dims=list(dims), rho=jsonable(rho), oracle_min_eigenvalues=[float(x) for x in mins])
+            rmins = []
+            for i in range(m):
+                ax = [j for j in range(m) if j != i]
+                red = np.trace(T.transpose([i] + ax + [m + i] + [m + j for j in ax]).reshape(dims[i], D // dims[i], dims[i], D // dims[i]), axis1=1, axis2=3)
+                left = int(np.prod(dims[:i])) if i else 1; right = int(np.prod(dims[i + 1:])) if i + 1 < m else 1
+                rmins.append(np.linalg.eigvalsh(np.kron(np.kron(np.eye(left), red), np.eye(right)) - rho).min())
+            if all(abs(x + 1e-7) > 1e-9 for x in rmins) and bool(em.check_reduction_witness(rho, dims, eps=-1e-7)) != all(x > -1e-7 for x in rmins):
+                return False, dict(function='check_reduction_witness', dims=list(dims), rho=jsonable(rho), oracle_min_eigenvalues=[float(x) for x in rmins])
+            norms = []
+            for k in range(0, m + 1):
+                for a in itertools.combinations(range(2 * m), k):
+                    b = [x for x in range(2 * m) if x not in a]
+                    rows = int(np.prod([(dims + dims)[x] for x in a])) if a else 1
+                    norms.append(np.linalg.svd(T.transpose(*a, *b).reshape(rows, -1), compute_uv=False).sum())
+            if all(abs(x - 1 - 1e-10) > 1e-9 for x in norms) and bool(ppt.is_generalized_ppt(rho, dims)) != all(x <= 1 + 1e-10 for x in norms):
+                return False, dict(function='is_generalized_ppt', dims=list(dims), rho=jsonable(rho), oracle_max_norm=float(max(norms)))
+            if m == 2:
+                neg = (np.abs(np.linalg.eigvalsh(pt(1))).sum() - 1) / 2
+                if abs(float(em.get_negativity(rho, dims)) - neg) > 1e-9:
+                    return False, dict(function='get_negativity', dims=list(dims), rho=jsonable(rho), oracle=float(neg))
+                if dims[0] == dims[1]:
+                    d = dims[0]; tr = float(sum(rho[a * d + b, b * d + a] for a in range(d) for b in range(d)).real)
+                    if abs(tr + 1e-7) > 1e-9 and bool(em.check_swap_witness(rho, eps=-1e-7)) != (tr > -1e-7):
+                        return False, dict(function='check_swap_witness', dims=list(dims), rho=jsonable(rho), oracle=tr)
+        return True, None
+
 
 def _kron(A, Bm):
     a0, a1 = A.shape; b0, b1 = Bm.shape
